@@ -79,15 +79,22 @@ def make_leaf(name):
             "NI1": lambda: NeighbourInteraction(c=1), "NI2p": lambda: NeighbourInteraction(periodic_bcs=True, c=2), "SWAP0": lambda: SWAP([0])}[name]()
 
 
-def build(e):
+def build(e, made=None):
+    """Build through the operator overloads; every intermediate observable object is recorded in `made` together with
+    its own subtree, so that after the whole expression exists each operand can be re-evaluated (building a parent must
+    not change its children)."""
     if "leaf" in e:
-        return make_leaf(e["leaf"])
-    if "num" in e:
+        o = make_leaf(e["leaf"])
+    elif "num" in e:
         return scalar(e)
-    if "neg" in e:
-        return -build(e["neg"])
-    l, r = build(e["l"]), build(e["r"])
-    return l + r if e["op"] == "+" else l - r if e["op"] == "-" else l * r
+    elif "neg" in e:
+        o = -build(e["neg"], made)
+    else:
+        l, r = build(e["l"], made), build(e["r"], made)
+        o = l + r if e["op"] == "+" else l - r if e["op"] == "-" else l * r
+    if made is not None:
+        made.append((e, o))
+    return o
 
 
 def interp(e, state, samples):
@@ -120,8 +127,21 @@ def check(c):
     state = make_state(c)
     n = c["n"]
     samples = R.rows_from_indices([k % (2 ** n) for k in c["batch"]], n)
-    obs = build(e)
+    made = []
+    obs = build(e, made)
     require(isinstance(obs, ObservableBase), "build:type", f"expression built a {type(obs).__name__}, not an observable")
+    # re-use of operands: extend two intermediate objects again AFTER the tree exists, then re-evaluate every operand
+    extra = []
+    for sub_e, sub_o in made[:-1][:3]:
+        extra.append(sub_o + 2.5)
+        extra.append(0.5 * sub_o)
+        extra.append(sub_o - 1)
+    for sub_e, sub_o in made[:-1]:
+        w = interp(sub_e, state, samples)
+        g = sub_o.apply(state, samples.clone()).double()
+        require(bool(torch.all((g - w).abs() <= 1e-12 * w.abs() + 1e-12)), "operand-changed-by-composition",
+                "an observable that was used as an operand no longer evaluates to its own expression after a larger expression was built from it",
+                operand=str(sub_o), got=g.tolist(), want=w.tolist())
     require(isinstance(obs.name, str) and isinstance(obs.symbol, str) and isinstance(str(obs), str) and isinstance(repr(obs), str), "name/symbol", "name/symbol of a composite must be strings")
     keep = samples.clone()
     got = obs.apply(state, samples)
